@@ -134,6 +134,51 @@ invariant
     forall|k: int| 0 <= k < k_ ==> #[trigger] output_shares@[k].0@.len() == init0.len(),
     forall|i: int| 0 <= i < init0.len() ==> #[trigger] share.0@[i] == acc_at(init0, output_shares@, i, k_ as int),
 '''})
+    # ---- Prio3 Collector::unshard: fold of merge over an all-zero vector of output_len, then the type's decode_result
+    u.raw('''
+pub struct Prio3Any { _p: u8 }
+impl Prio3Any {
+    pub uninterp spec fn out_len(&self) -> int;
+    #[verifier::external_body]
+    fn typ_output_len(&self) -> (r: usize) ensures r as int == self.out_len() { unimplemented!() }
+    // decode_result of the circuit type: any function of the summed vector and the report count (its own contract: C01)
+    pub uninterp spec fn decoded(&self, agg: Seq<Fe>, n: usize) -> Result<u64, VdafError>;
+    #[verifier::external_body]
+    fn typ_decode_result(&self, agg: &Vec<Fe>, n: usize) -> (r: Result<u64, VdafError>) ensures r == self.decoded(agg@, n) { unimplemented!() }
+}
+pub open spec fn zeros(n: int) -> Seq<Fe> { Seq::new(n as nat, |i: int| fe_mk(0)) }
+pub open spec fn agg_at(init: Seq<Fe>, shares: Seq<AggregateShare>, i: int, k: int) -> Fe decreases k
+{ if k <= 0 { init[i] } else { fe_mk(fe_v(agg_at(init, shares, i, k - 1)) + fe_v(shares[k - 1].0@[i])) } }
+''', 'unshard-spec')
+    u.item('src/vdaf/prio3.rs', ['impl<T, P, const SEED_SIZE: usize> Collector for Prio3<T, P, SEED_SIZE>', 'fn unshard'], ret='r', impl_header='impl Prio3Any',
+           rewrites=[(r'<It: IntoIterator<Item = AggregateShare<T::Field>>>', '', 1), (r'_agg_param: &Self::AggregationParam', '_agg_param: &()', 1),
+                     (r'agg_shares: It', 'agg_shares: &Vec<AggregateShare>', 1), (r'Result<T::AggregateResult, VdafError>', 'Result<u64, VdafError>', 1),
+                     (r'T::Field::zero\(\)', 'fe_zero()', 1), (r'self\.typ\.output_len\(\)', 'self.typ_output_len()', 1),
+                     (r'for agg_share in agg_shares\.into_iter\(\) \{', 'for k_ in 0..agg_shares.len() { let agg_share = &agg_shares[k_];', 1),
+                     (r'agg\.merge\(&agg_share\)\?;', 'match agg.merge(agg_share) { Ok(()) => {}, Err(e) => { return Err(e); } };', 1),
+                     (r'Ok\(self\.typ\.decode_result\(&agg\.0, num_measurements\)\?\)', 'self.typ_decode_result(&agg.0, num_measurements)', 1)],
+           sig='''
+ensures
+    // an aggregate share of another length makes unsharding fail
+    (exists|k: int| 0 <= k < agg_shares@.len() && #[trigger] agg_shares@[k].0@.len() != self.out_len()) ==> r is Err,
+    // otherwise the result is decode_result of the in-order fold (element-wise field sums) over the all-zero vector
+    (forall|k: int| 0 <= k < agg_shares@.len() ==> #[trigger] agg_shares@[k].0@.len() == self.out_len()) ==>
+        exists|agg: Seq<Fe>| agg.len() == self.out_len() && r == self.decoded(agg, num_measurements)
+            && forall|i: int| 0 <= i < agg.len() ==> #[trigger] agg[i] == agg_at(zeros(self.out_len()), agg_shares@, i, agg_shares@.len() as int),
+''',
+           ghost_before=[('for k_ in 0..', 'let ghost init0 = agg.0@;')],
+           before=[('self.typ_decode_result(&agg.0, num_measurements)', '''
+    assert forall|i: int| 0 <= i < init0.len() implies #[trigger] init0[i] == fe_mk(0) by { axiom_fe_range(init0[i]); }
+    assert(init0 =~= zeros(self.out_len()));
+''')],
+           loops={0: '''
+invariant
+    agg.0@.len() == self.out_len(),
+    init0.len() == self.out_len(),
+    forall|i: int| 0 <= i < init0.len() ==> fe_v(#[trigger] init0[i]) == 0,
+    forall|k: int| 0 <= k < k_ ==> #[trigger] agg_shares@[k].0@.len() == self.out_len(),
+    forall|i: int| 0 <= i < init0.len() ==> #[trigger] agg.0@[i] == agg_at(init0, agg_shares@, i, k_ as int),
+'''})
     u.raw('''
 fn witness(a: &mut Vec<Fe>, b: &Vec<Fe>) requires old(a)@.len() == 3, b@.len() == 3 {
     let r = merge_vector(a, b);
